@@ -7,7 +7,9 @@ import (
 	"go.uber.org/atomic"
 
 	"github.com/lindb/lindb/kv"
+	"github.com/lindb/lindb/kv/version"
 	"github.com/lindb/lindb/metrics"
+	"github.com/lindb/lindb/models"
 	"github.com/lindb/lindb/pkg/timeutil"
 	"github.com/lindb/lindb/series/metric"
 	"github.com/lindb/lindb/tsdb/memdb"
@@ -118,6 +120,41 @@ func verifNewFamily(out *verifDurable) *dataFamily {
 	}
 }
 
+// reopen: the real newDataFamily reads the stored sequences from the kv family's current version
+type verifStoredVersion struct {
+	version.Version
+	seqs map[int32]int64
+}
+
+func (v *verifStoredVersion) GetSequences() map[int32]int64 { return v.seqs }
+
+type verifStoredSnapshot struct {
+	version.Snapshot
+	v *verifStoredVersion
+}
+
+func (s *verifStoredSnapshot) GetCurrent() version.Version { return s.v }
+func (s *verifStoredSnapshot) Close()                      {}
+
+type verifReopenedKVFamily struct {
+	verifKVFamily
+	seqs map[int32]int64
+}
+
+func (f *verifReopenedKVFamily) GetSnapshot() version.Snapshot {
+	return &verifStoredSnapshot{v: &verifStoredVersion{seqs: f.seqs}}
+}
+
+func verifReopenFamily(out *verifDurable, stored int64) *dataFamily {
+	seqs := map[int32]int64{}
+	if stored >= 0 {
+		seqs[1] = stored
+	}
+	fam := &verifReopenedKVFamily{verifKVFamily: verifKVFamily{out: out}, seqs: seqs}
+	df := newDataFamily(verifShard{}, nil, timeutil.Interval(10000), timeutil.TimeRange{Start: 0, End: 3600000 - 1}, 0, fam)
+	return df.(*dataFamily)
+}
+
 type verifDB struct{ Database }
 
 func (verifDB) Name() string { return "db" }
@@ -125,6 +162,7 @@ func (verifDB) Name() string { return "db" }
 type verifShard struct{ Shard }
 
 func (verifShard) Database() Database                 { return verifDB{} }
+func (verifShard) ShardID() models.ShardID            { return 1 }
 func (verifShard) MemIndexDB() memdb.IndexDatabase    { return nil }
 func (verifShard) BufferManager() memdb.BufferManager { return nil }
 
@@ -181,8 +219,8 @@ func verifC07FlushVsReplica() {
 		verifAssert(a <= stored, "the log is never acknowledged beyond the sequence stored with flushed data")
 	}
 	// after a restart an entry at or below the stored sequence is rejected, a later one accepted
-	f2 := verifNewFamily(out)
-	f2.seq[1] = *atomic.NewInt64(stored)
+	// (the family is reopened by the real constructor from the sequences stored with the kv version)
+	f2 := verifReopenFamily(out, stored)
 	if stored >= 0 {
 		verifAssert(!f2.ValidateSequence(1, stored), "an entry at the stored sequence is never applied again")
 	}
